@@ -53,6 +53,10 @@ struct Layer {
     /// write `roles.primary` in its object form {provider, model, variant} (same route string)
     #[serde(default)]
     primary_obj: bool,
+    /// the file is valid JSON(C) of the WRONG SHAPE: one secret-bearing position of the first provider is
+    /// mis-typed with the canary as the offending scalar (variant code: see `apply_misfit`)
+    #[serde(default)]
+    misfit: Option<u8>,
 }
 #[derive(Clone, Serialize, Deserialize, Debug, Default)]
 struct Ovr {
@@ -85,6 +89,19 @@ struct Scenario {
     /// the secret cannot reach the provider in this scenario (positive control not applicable)
     #[serde(default)]
     secret_unsendable: bool,
+    /// no run: only the diagnostic surface is exercised (model case = doctor summary only)
+    #[serde(default)]
+    doctor_only: bool,
+    /// the diagnostic surface is the real `rip config doctor` (auto-spawned local authority whose stdout/stderr
+    /// go to <data>/authority/authority.log), followed by GET /config/doctor on the authority it spawned
+    #[serde(default)]
+    cli: bool,
+    /// the merged configuration does not fit the typed schema (`serde_json::from_value::<RipConfig>` fails and
+    /// the code falls back to the default configuration); the string is the scalar serde's type error quotes
+    /// ("" when the message quotes nothing).  By construction of the scenario; checked against the doctor output
+    /// through the model (Model/SecretFlow.v `w_misfit`)
+    #[serde(default)]
+    misfit: Option<String>,
 }
 
 #[allow(dead_code)]
@@ -130,7 +147,56 @@ fn concretise(sc: &Scenario, m: &[(&str, &str)]) -> Scenario {
     if let Some(o) = &mut c.ovr {
         o.endpoint = subst_opt(&o.endpoint, m);
     }
+    c.misfit = subst_opt(&c.misfit, m);
     c
+}
+
+/// Wrong-shape variants: valid JSON that does not fit the config schema, with the secret AT the offending
+/// position and every position that is deserialised before it (BTreeMap key order) well-typed, so that the
+/// schema error serde reports is the one about the secret.  Returns (name, scalar quoted by serde's message).
+/// `@@{{N}}@@` becomes an unquoted number in `layer_text`.
+const N_MISFIT: u8 = 12;
+fn misfit_info(v: u8) -> (&'static str, &'static str) {
+    match v {
+        0 => ("headers-as-string", "X-Api-Key: tok {{H}}"),
+        1 => ("header-value-unquoted-number", "{{N}}"),
+        2 => ("provider-as-string", "{{K}}"),
+        3 => ("provider-entry-as-string", "{{K}}"),
+        4 => ("provider-id-level-missing", "{{K}}"),
+        5 => ("api-key-unquoted-number", ""),
+        6 => ("api-key-wrong-object", ""),
+        7 => ("header-value-nested", ""),
+        8 => ("whole-file-is-a-string", "{{K}}"),
+        9 => ("headers-as-array", ""),
+        10 => ("header-value-negative-number", "-{{N}}"),
+        _ => ("api-key-array", ""),
+    }
+}
+fn apply_misfit(root: &mut Value, v: u8) {
+    let pid = root["provider"].as_object().and_then(|o| o.keys().next().cloned()).unwrap_or_else(|| "acme".into());
+    if !root["provider"].is_object() {
+        root["provider"] = json!({});
+    }
+    if !root["provider"][&pid].is_object() {
+        root["provider"][&pid] = json!({});
+    }
+    match v {
+        0 => root["provider"][&pid]["headers"] = json!("X-Api-Key: tok {{H}}"),
+        1 => root["provider"][&pid]["headers"] = json!({ "HTTP-Referer": "https://example.com/app", "X-Tenant-Token": "@@{{N}}@@" }),
+        2 => root["provider"] = json!("{{K}}"),
+        3 => root["provider"][&pid] = json!("{{K}}"),
+        4 => {
+            let ep = root["provider"][&pid]["endpoint"].clone();
+            root["provider"] = json!({ "api_key": "{{K}}", "endpoint": ep });
+        }
+        5 => root["provider"][&pid]["api_key"] = json!("@@{{N}}@@"),
+        6 => root["provider"][&pid]["api_key"] = json!({ "value": "{{K}}" }),
+        7 => root["provider"][&pid]["headers"] = json!({ "HTTP-Referer": "https://example.com/app", "X-Api-Key": { "value": "tok {{H}}" } }),
+        8 => *root = json!("{{K}}"),
+        9 => root["provider"][&pid]["headers"] = json!(["X-Api-Key: tok {{H}}"]),
+        10 => root["provider"][&pid]["headers"] = json!({ "X-Tenant-Token": "@@-{{N}}@@" }),
+        _ => root["provider"][&pid]["api_key"] = json!(["{{K}}"]),
+    }
 }
 
 fn layer_json(l: &Layer) -> Value {
@@ -186,13 +252,20 @@ fn layer_json(l: &Layer) -> Value {
         }
         root.insert("openresponses".into(), Value::Object(o));
     }
-    Value::Object(root)
+    let mut v = Value::Object(root);
+    if let Some(m) = l.misfit {
+        apply_misfit(&mut v, m);
+    }
+    v
 }
 fn layer_text(l: &Layer) -> String {
     if let Some(t) = &l.raw_text {
         return t.clone();
     }
-    let body = serde_json::to_string_pretty(&layer_json(l)).unwrap();
+    let body = serde_json::to_string_pretty(&layer_json(l)).unwrap().replace("\"@@", "").replace("@@\"", "");
+    if !body.trim_end().ends_with('}') {
+        return body;
+    }
     if l.slot == 0 || l.slot == 3 || l.slot == 5 {
         // JSONC: comments and a trailing comma
         let mut t = String::from("// generated by rv c19 /* not a block */\n");
@@ -235,6 +308,12 @@ struct ChildSpec {
     ripd_bin: Option<String>,
     #[serde(default)]
     out_dir: String,
+    #[serde(default)]
+    doctor_only: bool,
+    /// path of the real `rip` binary: when set the diagnostic surface is `rip config doctor` (which spawns
+    /// `rip serve` as the local authority with its output redirected to <data>/authority/authority.log)
+    #[serde(default)]
+    rip_bin: Option<String>,
 }
 #[derive(Serialize, Deserialize, Debug, Default)]
 struct ChildObs {
@@ -254,6 +333,97 @@ struct ChildObs {
     /// deliver it: a subscribe/replay gap of the SSE handlers, not a C19 matter)
     #[serde(default)]
     sse_gaps: u64,
+    /// `rip config doctor` invocations: (exit code, stdout, stderr)
+    #[serde(default)]
+    cli_runs: Vec<(i32, String, String)>,
+    /// invocations that failed only because the CLI's own 8 s wait for the authority it spawned expired (box load)
+    #[serde(default)]
+    cli_waits: u64,
+}
+
+/// state of a process that is not our child: gone (or a zombie nobody reaped yet) = true
+fn pid_gone(pid: u32) -> bool {
+    match std::fs::read_to_string(format!("/proc/{pid}/stat")) {
+        Err(_) => true,
+        Ok(t) => t.rsplit(')').next().map(|r| r.trim_start().starts_with('Z')).unwrap_or(false),
+    }
+}
+
+/// the CLI surface: `rip config doctor` twice (the first call spawns the local authority, the second attaches to
+/// it), then the same question over HTTP to the authority the CLI spawned; finally that authority is stopped.
+async fn child_drive_cli(spec: &ChildSpec, rip: &str) -> ChildObs {
+    let mut obs = ChildObs::default();
+    let mut raw: Vec<u8> = vec![];
+    let run_cli = |obs: &mut ChildObs| -> Option<Value> {
+        // a generous, load-independent loop: the CLI gives the authority it spawned 8 s to answer; on a loaded box
+        // that can expire although nothing is wrong (the authority keeps starting; the next call attaches to it).
+        // Every attempt's output is kept and searched.
+        for _ in 0..60 {
+            let out = std::process::Command::new(rip)
+                .args(["config", "doctor"])
+                .env("RIP_DATA_DIR", &spec.data_dir)
+                .env("RIP_WORKSPACE_ROOT", &spec.workspace)
+                .stdin(std::process::Stdio::null())
+                .output();
+            let out = match out {
+                Ok(o) => o,
+                Err(e) => {
+                    obs.errors.push(format!("spawn {rip}: {e}"));
+                    return None;
+                }
+            };
+            let so = String::from_utf8_lossy(&out.stdout).to_string();
+            let se = String::from_utf8_lossy(&out.stderr).to_string();
+            let code = out.status.code().unwrap_or(-1);
+            obs.cli_runs.push((code, so.clone(), se.clone()));
+            if out.status.success() {
+                return serde_json::from_str::<Value>(&so).ok();
+            }
+            if se.contains("timed out waiting for local authority") || se.contains("error sending request") {
+                obs.cli_waits += 1;
+                std::thread::sleep(Duration::from_millis(500));
+                continue;
+            }
+            obs.errors.push(format!("rip config doctor failed ({code}): {}", se.chars().take(300).collect::<String>()));
+            return None;
+        }
+        obs.errors.push("rip config doctor: the local authority never answered in 60 attempts".into());
+        None
+    };
+    obs.doctor = run_cli(&mut obs).unwrap_or(Value::Null);
+    obs.doctor_after = run_cli(&mut obs).unwrap_or(Value::Null);
+    // the authority the CLI spawned
+    let meta = ripd::read_authority_meta(Path::new(&spec.data_dir)).ok().flatten();
+    if let Some(meta) = &meta {
+        obs.authority = meta.endpoint.clone();
+        let app = Target::Http(reqwest::Client::builder().no_proxy().build().unwrap(), meta.endpoint.clone());
+        let (_, b) = call(&app, &mut raw, &mut obs, "GET", "/config/doctor", None).await;
+        let over_http: Value = serde_json::from_slice(&b).unwrap_or(Value::Null);
+        if over_http != obs.doctor_after {
+            obs.errors.push("`rip config doctor` printed something else than GET /config/doctor answered".into());
+        }
+        call(&app, &mut raw, &mut obs, "GET", "/tasks", None).await;
+        unsafe {
+            libc::kill(meta.pid as i32, libc::SIGTERM);
+        }
+        let mut gone = false;
+        for _ in 0..6000 {
+            if pid_gone(meta.pid) {
+                gone = true;
+                break;
+            }
+            tokio::time::sleep(Duration::from_millis(10)).await;
+        }
+        if !gone {
+            unsafe {
+                libc::kill(meta.pid as i32, libc::SIGKILL);
+            }
+        }
+    } else {
+        obs.errors.push("no authority meta.json after `rip config doctor`".into());
+    }
+    std::fs::write(&spec.out_raw, &raw).unwrap();
+    obs
 }
 
 fn child_main(spec_path: &str) -> i32 {
@@ -446,6 +616,9 @@ async fn sse_until(
 }
 
 async fn child_drive(spec: &ChildSpec) -> ChildObs {
+    if let Some(rip) = &spec.rip_bin {
+        return child_drive_cli(spec, rip).await;
+    }
     let mut obs = ChildObs::default();
     let mut raw: Vec<u8> = vec![];
     let mut authority: Option<std::process::Child> = None;
@@ -506,7 +679,8 @@ async fn child_drive(spec: &ChildSpec) -> ChildObs {
     let (_, b) = call(&app, &mut raw, &mut obs, "GET", "/config/doctor", None).await;
     obs.doctor = serde_json::from_slice(&b).unwrap_or(Value::Null);
 
-    if spec.thread {
+    if spec.doctor_only {
+    } else if spec.thread {
         let (_, b) = call(&app, &mut raw, &mut obs, "POST", "/threads/ensure", None).await;
         let tid = serde_json::from_slice::<Value>(&b).ok().and_then(|v| v["thread_id"].as_str().map(String::from)).unwrap_or_default();
         let mut payload = json!({ "content": spec.prompt });
@@ -683,6 +857,17 @@ fn ripd_bin() -> Option<PathBuf> {
     p.exists().then_some(p)
 }
 
+/// the real `rip` binary (built by the check's pre_cmd into harness/target-cli, shared with C20), or $RV_RIP_BIN
+fn rip_bin() -> Option<PathBuf> {
+    if let Ok(p) = std::env::var("RV_RIP_BIN") {
+        let p = PathBuf::from(p);
+        return p.exists().then_some(p);
+    }
+    let exe = std::env::current_exe().ok()?;
+    let p = exe.parent()?.parent()?.parent()?.join("target-cli/debug/rip");
+    p.exists().then_some(p)
+}
+
 fn dead_addr() -> String {
     let l = std::net::TcpListener::bind("127.0.0.1:0").unwrap();
     let a = l.local_addr().unwrap();
@@ -690,7 +875,7 @@ fn dead_addr() -> String {
     format!("http://{a}")
 }
 
-fn run_once(sc: &Scenario, key: &str, hdr: &str) -> RunOut {
+fn run_once(sc: &Scenario, key: &str, hdr: &str, num: &str) -> RunOut {
     let scratch = Scratch::new("c19");
     let root = scratch.path().to_path_buf();
     let provider = ScriptedProvider::start(script_for(sc.outcome));
@@ -698,13 +883,14 @@ fn run_once(sc: &Scenario, key: &str, hdr: &str) -> RunOut {
     let dead = dead_addr();
     let target = if sc.outcome == 2 { dead.clone() } else { prov.clone() };
     let rkey: String = key.chars().rev().collect();
-    let m: Vec<(&str, &str)> = vec![("{{K}}", key), ("{{R}}", &rkey), ("{{H}}", hdr), ("{{P}}", &target)];
+    let schemeless = target.trim_start_matches("http://").to_string();
+    let m: Vec<(&str, &str)> = vec![("{{K}}", key), ("{{R}}", &rkey), ("{{H}}", hdr), ("{{N}}", num), ("{{P}}", &target), ("{{Q}}", &schemeless)];
     let c = concretise(sc, &m);
     for d in ["home/.rip", "cfghome", "custom", "outer/.git", "outer/ws", "data", "out"] {
         std::fs::create_dir_all(root.join(d)).unwrap();
     }
     for l in &c.layers {
-        std::fs::write(root.join(layer_relpath(l.slot, c.config_home)), layer_text(l)).unwrap();
+        std::fs::write(root.join(layer_relpath(l.slot, c.config_home)), subst(&layer_text(l), &m)).unwrap();
     }
     let spec = ChildSpec {
         data_dir: root.join("data").display().to_string(),
@@ -732,8 +918,10 @@ fn run_once(sc: &Scenario, key: &str, hdr: &str) -> RunOut {
         prompt: c.prompt.clone(),
         out_obs: root.join("out/obs.json").display().to_string(),
         out_raw: root.join("out/raw.bin").display().to_string(),
-        ripd_bin: if c.real_authority { ripd_bin().map(|p| p.display().to_string()) } else { None },
+        ripd_bin: if c.real_authority && !c.cli { ripd_bin().map(|p| p.display().to_string()) } else { None },
         out_dir: root.join("out").display().to_string(),
+        doctor_only: c.doctor_only,
+        rip_bin: if c.cli { rip_bin().map(|p| p.display().to_string()) } else { None },
     };
     let spec_path = root.join("out/spec.json");
     std::fs::write(&spec_path, serde_json::to_vec(&spec).unwrap()).unwrap();
@@ -765,6 +953,10 @@ fn run_once(sc: &Scenario, key: &str, hdr: &str) -> RunOut {
     let mut child_stderr = out.stderr.clone();
     child_stdout.extend(std::fs::read(root.join("out/ripd.stdout")).unwrap_or_default());
     child_stderr.extend(std::fs::read(root.join("out/ripd.stderr")).unwrap_or_default());
+    for (code, so, se) in &obs.cli_runs {
+        child_stdout.extend(format!("\n### rip config doctor -> exit {code}\n{so}").into_bytes());
+        child_stderr.extend(format!("\n### rip config doctor -> exit {code}\n{se}").into_bytes());
+    }
     let parse_lines = |b: &[u8]| -> Vec<Value> { String::from_utf8_lossy(b).lines().filter_map(|l| serde_json::from_str::<Value>(l).ok()).collect() };
     let mut disk_session = vec![];
     let mut disk_thread = vec![];
@@ -971,6 +1163,23 @@ fn kind_code(k: &str) -> u64 {
 /// what the implementation showed, flattened (mirrors `model_obs` in Model/SecretFlow.v)
 fn observe(r: &RunOut) -> Vec<u64> {
     let mut o = vec![];
+    // 0. error texts of the per-source report, except those of files that do not parse / cannot be read (outside the model)
+    let errs: Vec<String> = r.obs.doctor["sources"]
+        .as_array()
+        .map(|a| {
+            a.iter()
+                .filter(|x| {
+                    let st = x["status"].as_str().unwrap_or("");
+                    !(matches!(st, "invalid:global" | "invalid:custom" | "invalid:project") || st.starts_with("unreadable:"))
+                })
+                .filter_map(|x| x.get("error").filter(|e| !e.is_null()).map(|e| e.as_str().map(String::from).unwrap_or_else(|| e.to_string())))
+                .collect()
+        })
+        .unwrap_or_default();
+    o.push(errs.len() as u64);
+    for e in &errs {
+        enc_str(&mut o, e);
+    }
     // 1. doctor summary
     let d = &r.obs.doctor["openresponses"];
     if d.is_object() {
@@ -991,6 +1200,9 @@ fn observe(r: &RunOut) -> Vec<u64> {
         enc_ostr(&mut o, d["followup_user_message"].as_str());
     } else {
         o.push(0);
+    }
+    if r.sc.doctor_only {
+        return o;
     }
     // 2. first request as recorded by the provider (none when the endpoint is dead / no provider configured)
     match r.recorded.first() {
@@ -1073,7 +1285,9 @@ fn coq_obool(b: &Option<bool>) -> String {
     coq_opt(b, |x| coq_bool(*x).to_string())
 }
 fn coq_case(c: &Scenario, obs: &[u64]) -> String {
-    let mut layers = c.layers.clone();
+    // a mis-shaped position that survives the merge makes the whole typed configuration default (w_misfit); one that
+    // a higher layer replaced is simply absent from the typed view
+    let mut layers: Vec<Layer> = c.layers.iter().map(repaired_view).collect();
     layers.sort_by_key(|l| l.slot);
     let ls = coq_list(&layers, |l| {
         let ps = coq_list(&l.providers, |p| {
@@ -1091,7 +1305,8 @@ fn coq_case(c: &Scenario, obs: &[u64]) -> String {
         None => "mkOvr None None None None None".to_string(),
         Some(o) => format!("mkOvr {} {} {} {} {}", coq_ostr(&o.endpoint), coq_ostr(&o.model), coq_obool(&o.stateless), coq_obool(&o.parallel), coq_ostr(&o.followup)),
     };
-    format!("mkCase (mkWorld {} {} ({})) {} {} {}", ls, env, ovr, coq_bool(c.thread), c.outcome, coq_list_n(obs))
+    let outcome = if c.doctor_only { 99 } else { c.outcome as u64 };
+    format!("mkCase (mkWorld {} {} ({}) {}) {} {} {}", ls, env, ovr, coq_ostr(&c.misfit), coq_bool(c.thread), outcome, coq_list_n(obs))
 }
 
 // ------------------------------------------------------------------ independent doctor oracle
@@ -1135,6 +1350,15 @@ fn core(rng: &mut Rng, tag: char) -> String {
     s.push(tag);
     for _ in 0..31 {
         s.push(CORE_CHARS[rng.below(CORE_CHARS.len() as u64) as usize] as char);
+    }
+    s
+}
+/// a secret token that is a NUMBER (17 digits, fits i64): serde quotes an unquoted numeric token verbatim
+fn num_core(rng: &mut Rng) -> String {
+    let mut s = String::new();
+    s.push((b'1' + rng.below(8) as u8) as char);
+    for _ in 0..16 {
+        s.push((b'0' + rng.below(10) as u8) as char);
     }
     s
 }
@@ -1329,6 +1553,121 @@ fn gen_scenario(rng: &mut Rng, i: u64) -> Scenario {
     sc
 }
 
+/// what the typed schema sees of a layer whose mis-shaped position was REPLACED by a higher layer (merge_json_value:
+/// a non-object on either side is replaced wholesale): the layer without that position
+fn repaired_view(l: &Layer) -> Layer {
+    let mut m = l.clone();
+    let Some(v) = m.misfit.take() else { return m };
+    match v {
+        0 | 9 | 10 => m.providers[0].headers.clear(),
+        1 | 7 => m.providers[0].headers = vec![("HTTP-Referer".into(), "https://example.com/app".into())],
+        5 | 6 | 11 => m.providers[0].api_key = None,
+        2 | 3 => m.providers.clear(),
+        _ => {
+            // 8: the whole document was a string
+            m = Layer { slot: l.slot, ..Default::default() };
+        }
+    }
+    m
+}
+
+/// Wrong-shape grid: variant x config slot x diagnostic surface (in-process router, real `ripd` process, `rip config
+/// doctor`).  The file is valid JSON(C) that does not fit the schema, the canary is the offending scalar, and it
+/// also holds well-typed secrets next to it.  Quick: every (variant, slot) once with the surface rotating (every
+/// (variant, surface) pair occurs at least twice); thorough: the full product.
+fn gen_misfit(rng: &mut Rng, j: u64, full: bool) -> Scenario {
+    let nv = N_MISFIT as u64;
+    let variant = (j % nv) as u8;
+    let slot = ((j / nv) % 7) as u8;
+    let surface = if full { (j / (nv * 7)) % 3 } else { (variant as u64 + slot as u64) % 3 };
+    let mut sc = Scenario { prompt: format!("misfit #{j}"), thread: true, ..Default::default() };
+    sc.channel = format!("wrong-shape:{}", misfit_info(variant).0);
+    sc.config_home = rng.chance(1, 2);
+    sc.real_authority = surface == 1;
+    sc.cli = surface == 2;
+    // a run on the in-process surface for the even slots, with the start-up / per-request env fallback
+    sc.doctor_only = !(surface == 0 && slot % 2 == 0);
+    sc.outcome = if sc.doctor_only { 0 } else { (j % 2) as u8 };
+    sc.secret_unsendable = true;
+    let ep = endpoint_variant(rng, 0);
+    if rng.chance(2, 3) || !sc.doctor_only {
+        sc.env.push(("RIP_OPENRESPONSES_ENDPOINT".into(), ep.clone()));
+    }
+    let pid = if rng.chance(1, 2) { "openrouter" } else { "acme" };
+    let prov = ProvSpec {
+        id: pid.into(),
+        endpoint: Some(ep.clone()),
+        api_key: Some(KeySpec::Inline("{{K}}-sk-{{R}}".into())),
+        headers: vec![("HTTP-Referer".into(), "https://example.com/app".into()), ("X-Api-Key".into(), "tok {{H}}; v=\"1\"".into())],
+    };
+    let bad = Layer { slot, providers: vec![prov.clone()], model: Some(format!("{pid}/fixture-model")), misfit: Some(variant), stateless: Some(true), ..Default::default() };
+    // a higher layer that REPLACES the mis-shaped position: the merged document fits again (variant 4 cannot be repaired)
+    let repair = slot < 6 && variant != 4 && rng.chance(1, 4);
+    // a well-formed lower layer is merged first and dropped together with everything else (not with a repair: the
+    // replaced position also loses what lower layers put there)
+    if !repair && slot > 0 && rng.chance(1, 3) {
+        sc.layers.push(Layer {
+            slot: rng.below(slot as u64) as u8,
+            providers: vec![ProvSpec { id: pid.into(), endpoint: None, api_key: Some(KeySpec::Inline("lower-{{K}}".into())), headers: vec![("X-Lower".into(), "low {{H}}".into())] }],
+            followup: Some("continue please".into()),
+            ..Default::default()
+        });
+    }
+    if repair {
+        let hi = Layer {
+            slot: slot + 1 + rng.below((6 - slot) as u64) as u8,
+            providers: vec![ProvSpec {
+                id: pid.into(),
+                endpoint: Some(ep.clone()),
+                api_key: Some(KeySpec::Inline("{{K}}".into())),
+                headers: vec![("X-Api-Key".into(), "tok {{H}}".into()), ("X-Tenant-Token".into(), "tenant {{H}}".into())],
+            }],
+            model: Some(format!("{pid}/fixture-model")),
+            ..Default::default()
+        };
+        sc.layers.push(hi);
+        sc.secret_unsendable = false;
+        sc.channel = format!("wrong-shape-repaired:{}", misfit_info(variant).0);
+    } else {
+        sc.misfit = Some(misfit_info(variant).1.to_string());
+    }
+    sc.layers.push(bad);
+    if rng.chance(1, 2) {
+        sc.env.push(("RIP_OPENRESPONSES_DUMP_REQUEST".into(), "1".into()));
+    }
+    sc.layers.sort_by_key(|l| l.slot);
+    sc
+}
+
+/// Start-up oddities of the real authority process: the key comes through the environment and a PUBLIC setting is
+/// unusable (endpoint that is not an absolute URL, unknown tool choice, odd booleans) - whatever the authority
+/// prints about that on start-up must not include the key.
+fn gen_startup(rng: &mut Rng, j: u64) -> Scenario {
+    let mut sc = Scenario { prompt: format!("startup #{j}"), ..Default::default() };
+    sc.channel = "startup-oddity".into();
+    sc.real_authority = true;
+    sc.thread = j % 2 == 0;
+    sc.outcome = 2;
+    sc.secret_unsendable = true;
+    let ep = match (j / 2) % 3 {
+        0 => "{{Q}}/v1/responses",
+        1 => "localhost/v1/responses",
+        _ => "//{{Q}}/v1/responses",
+    };
+    sc.env.push(("RIP_OPENRESPONSES_ENDPOINT".into(), ep.into()));
+    sc.env.push(("RIP_OPENRESPONSES_API_KEY".into(), "{{K}}-sk-{{R}}".into()));
+    if rng.chance(1, 2) {
+        sc.env.push(("RIP_OPENRESPONSES_TOOL_CHOICE".into(), "definitely-not-a-tool-choice".into()));
+    }
+    if rng.chance(1, 2) {
+        sc.env.push(("RIP_OPENRESPONSES_STATELESS_HISTORY".into(), "maybe".into()));
+    }
+    if rng.chance(1, 2) {
+        sc.env.push(("RIP_OPENRESPONSES_DUMP_REQUEST".into(), "1".into()));
+    }
+    sc
+}
+
 /// frames of the two runs' SSE reads with the same seq (an SSE read may lack frames: see `sse_until`)
 fn sse_pairs(a: &[Value], b: &[Value]) -> Vec<(Vec<u8>, Vec<u8>)> {
     let mut out = vec![];
@@ -1348,7 +1687,7 @@ struct PairReport {
     checks: u64,
 }
 
-fn check_pair(a: &RunOut, b: &RunOut, cores: [&str; 4], sc: &Scenario) -> PairReport {
+fn check_pair(a: &RunOut, b: &RunOut, cores: [&str; 6], sc: &Scenario) -> PairReport {
     let mut rep = PairReport { violations: vec![], positive: false, positive_na: false, checks: 0 };
     // (i) canary search
     for r in [a, b] {
@@ -1423,7 +1762,7 @@ fn check_pair(a: &RunOut, b: &RunOut, cores: [&str; 4], sc: &Scenario) -> PairRe
             key_ok
         }
     };
-    if sc.outcome == 2 || sc.secret_unsendable {
+    if sc.outcome == 2 || sc.secret_unsendable || sc.doctor_only {
         rep.positive_na = true;
     } else {
         rep.positive = reached(a, cores[0], cores[1]) && reached(b, cores[2], cores[3]);
@@ -1549,6 +1888,24 @@ fn main() {
     for i in 0..n {
         scenarios.push(gen_scenario(&mut rng, i));
     }
+    let full = args.thorough();
+    let n_misfit: u64 = args.extra.get("misfit").and_then(|v| v.parse().ok()).unwrap_or(N_MISFIT as u64 * 7 * if full { 3 } else { 1 });
+    for j in 0..n_misfit {
+        scenarios.push(gen_misfit(&mut rng, j, full));
+    }
+    let n_startup: u64 = args.extra.get("startup").and_then(|v| v.parse().ok()).unwrap_or(if full { 24 } else { 6 });
+    for j in 0..n_startup {
+        scenarios.push(gen_startup(&mut rng, j));
+    }
+    if rip_bin().is_none() {
+        res.notes.push("real `rip` binary not found (harness/target-cli/debug/rip, or $RV_RIP_BIN): the CLI scenarios use the real `ripd` process over HTTP instead".into());
+        for sc in &mut scenarios {
+            if sc.cli {
+                sc.cli = false;
+                sc.real_authority = true;
+            }
+        }
+    }
     let have_ripd = ripd_bin().is_some();
     if !have_ripd {
         res.notes.push("real authority binary not found (c19_ripd next to c19, or $RV_RIPD_BIN): every scenario uses the in-process router".into());
@@ -1557,7 +1914,7 @@ fn main() {
         }
     }
     // canaries per scenario
-    let cores: Vec<[String; 4]> = (0..scenarios.len()).map(|_| [core(&mut rng, 'K'), core(&mut rng, 'H'), core(&mut rng, 'k'), core(&mut rng, 'h')]).collect();
+    let cores: Vec<[String; 6]> = (0..scenarios.len()).map(|_| [core(&mut rng, 'K'), core(&mut rng, 'H'), core(&mut rng, 'k'), core(&mut rng, 'h'), num_core(&mut rng), num_core(&mut rng)]).collect();
 
     // run (parallel over scenarios)
     let results: std::sync::Mutex<Vec<Option<(RunOut, RunOut)>>> = std::sync::Mutex::new((0..scenarios.len()).map(|_| None).collect());
@@ -1569,8 +1926,8 @@ fn main() {
                 if i >= scenarios.len() {
                     break;
                 }
-                let a = run_once(&scenarios[i], &cores[i][0], &cores[i][1]);
-                let b = run_once(&scenarios[i], &cores[i][2], &cores[i][3]);
+                let a = run_once(&scenarios[i], &cores[i][0], &cores[i][1], &cores[i][4]);
+                let b = run_once(&scenarios[i], &cores[i][2], &cores[i][3], &cores[i][5]);
                 results.lock().unwrap()[i] = Some((a, b));
             });
         }
@@ -1586,7 +1943,7 @@ fn main() {
         let (a, b) = pair.expect("scenario ran");
         let sc = &scenarios[i];
         let c = &cores[i];
-        let rep = check_pair(&a, &b, [&c[0], &c[1], &c[2], &c[3]], sc);
+        let rep = check_pair(&a, &b, [&c[0], &c[1], &c[2], &c[3], &c[4], &c[5]], sc);
         res.evaluations += 2;
         res.oracle_checks += rep.checks;
         res.bump(&format!("channel:{}", sc.channel));
@@ -1595,7 +1952,12 @@ fn main() {
         if sc.oracle_only {
             res.bump("oracle-only-scenarios (outside the model)");
         }
-        res.bump(if sc.real_authority { "authority:real-ripd-process" } else { "authority:in-process-router" });
+        res.bump(if sc.cli { "authority:rip-cli-spawned (rip config doctor)" } else if sc.real_authority { "authority:real-ripd-process" } else { "authority:in-process-router" });
+        if sc.doctor_only {
+            res.bump("doctor-only-scenarios");
+        }
+        res.bump_by("cli-doctor-invocations", (a.obs.cli_runs.len() + b.obs.cli_runs.len()) as u64);
+        res.bump_by("cli-doctor-waits-for-authority", a.obs.cli_waits + b.obs.cli_waits);
         let dump_on = sc.env.iter().any(|(k, v)| k == "RIP_OPENRESPONSES_DUMP_REQUEST" && matches!(v.to_ascii_lowercase().as_str(), "1" | "true" | "yes" | "on"));
         res.bump(if dump_on { "dump:on" } else { "dump:off" });
         res.bump(&format!("layers:{}", sc.layers.len()));
